@@ -68,3 +68,263 @@ fold_other_contract = Contract(
 )
 
 CONTRACTS = [fold_contract, fold_other_contract]
+
+# =================================================================================================
+# IR-level folding: ConstantPropagationOptimizer._fold_arithmetic / _fold_comparison
+# =================================================================================================
+OPT = "dsl_compiler/src/ir/optimizer.py::ConstantPropagationOptimizer."
+OPT_ARITH_TAGS = ["+", "-", "*", "/", "%", "**", "^", "<<", ">>", "&", "AND", "|", "OR", "XOR"]
+_CANON = {"^": "**", "&": "AND", "|": "OR"}
+
+
+def opt_fold_spec(op, l, r, res):
+    """Declining to fold (None) is always allowed; a folded value must be the run-time value."""
+    if res is None:
+        return True
+    cop = _CANON.get(op, op)
+    if cop in ("/", "%"):
+        return Implies(r != 0, ops.eq(res, A.fa(cop, l, r)))
+    return fold_spec(cop, l, r, res)
+
+
+def cls_floor_div(a, res):
+    """IR-level `/` folds with Python floor division: off by one exactly when the signs differ and
+    the division is inexact (pinned by dsl_compiler/src/ir/tests/test_optimizer.py: -10/3 == -4)."""
+    l, r = a.left, a.right
+    return And(r != 0, ops.eq(res, ops.floordiv(l, ops.ite(r == 0, 1, r))),
+               Not(ops.Iff(l < 0, r < 0)), ops.floormod(l, ops.ite(r == 0, 1, r)) != 0)
+
+
+opt_fold_arith = Contract(
+    qualname=OPT + "_fold_arithmetic",
+    params={"self": ty.TObj("ConstantPropagationOptimizer"), "op": ty.Str, "left": ty.Int, "right": ty.Int},
+    requires=[("int32 operands", lambda a: And(A.i32(a.left), A.i32(a.right)))],
+    ensures=[
+        ("folded value equals run-time arithmetic", lambda a, res: opt_fold_spec(a.op, a.left, a.right, res)),
+        ("folded value fits int32", lambda a, res: True if res is None else A.i32(res)),
+    ],
+    known={"folded value equals run-time arithmetic": [("KF-C11-ir-floor-division", cls_floor_div)]},
+    case_split={"op": OPT_ARITH_TAGS},
+    returns=ty.TOpt(ty.Int),
+    properties=("C11", "C10"),
+    min_obligations=2 * len(OPT_ARITH_TAGS),
+)
+
+opt_fold_arith_other = Contract(
+    qualname=OPT + "_fold_arithmetic",
+    params={"self": ty.TObj("ConstantPropagationOptimizer"), "op": ty.Str, "left": ty.Int, "right": ty.Int},
+    requires=[("op is no arithmetic tag", lambda a: And(*[a.op != t for t in OPT_ARITH_TAGS]))],
+    ensures=[("unknown tag is not folded", lambda a, res: res is None)],
+    properties=("C11", "C10"),
+)
+
+OPT_CMP_TAGS = ["==", "=", "!=", "≠", "<", "<=", ">", ">="]
+
+opt_fold_cmp = Contract(
+    qualname=OPT + "_fold_comparison",
+    params={"self": ty.TObj("ConstantPropagationOptimizer"), "op": ty.Str, "left": ty.Int, "right": ty.Int},
+    requires=[("int32 operands", lambda a: And(A.i32(a.left), A.i32(a.right)))],
+    ensures=[("comparison truth value", lambda a, res: res is not None and ops.Iff(res, A.cmp(a.op, a.left, a.right)))],
+    case_split={"op": OPT_CMP_TAGS},
+    returns=ty.TOpt(ty.Bool),
+    properties=("C11", "C10"),
+    min_obligations=len(OPT_CMP_TAGS),
+)
+
+opt_fold_cmp_other = Contract(
+    qualname=OPT + "_fold_comparison",
+    params={"self": ty.TObj("ConstantPropagationOptimizer"), "op": ty.Str, "left": ty.Int, "right": ty.Int},
+    requires=[("op is no comparison tag", lambda a: And(*[a.op != t for t in OPT_CMP_TAGS]))],
+    ensures=[("unknown tag is not folded", lambda a, res: res is None)],
+    properties=("C11", "C10"),
+)
+
+CONTRACTS += [opt_fold_arith, opt_fold_arith_other, opt_fold_cmp, opt_fold_cmp_other]
+
+# =================================================================================================
+# ConstantFolder.extract_constant_int — structural recursion over the AST, against S3's
+# constant denotation.  The recursive calls are used BY CONTRACT (induction over the finite AST):
+# `cden(e)` is a ghost attribute = the value S3 assigns to sub-expression e (None: not constant).
+# =================================================================================================
+from pyvc.ghost import ghost, isa  # noqa: E402
+from pyvc.values import ClassRef  # noqa: E402
+
+EXTRACT = "dsl_compiler/src/lowering/constant_folder.py::ConstantFolder.extract_constant_int"
+
+
+def _real_cden(resolver):
+    """S3 constant denotation on real AST objects (executable twin, written from the property
+    statement, not from the code)."""
+    def den(e):
+        if isa(e, "NumberLiteral"):
+            return e.value
+        if isa(e, "IdentifierExpr"):
+            return resolver(e.name) if resolver is not None else None
+        if isa(e, "SignalLiteral"):
+            return den(e.value)
+        if isa(e, "UnaryOp"):
+            v = den(e.expr)
+            if v is None:
+                return None
+            return {"+": v, "-": A.wrap32(-v)}.get(e.op)
+        if isa(e, "BinaryOp"):
+            l, r = den(e.left), den(e.right)
+            if l is None or r is None or e.op not in ALL_TAGS:
+                return None
+            if e.op in ("<<", ">>") and not 0 <= r <= 31:
+                return "unspecified"
+            if e.op == "**" and r < 0:
+                return "unspecified"
+            return A.fa_any(e.op, l, r)
+        return None
+    return den
+
+
+def cden(e, resolver=None):
+    return ghost(e, "cden", ty.TOpt(ty.Int), concrete=lambda o: _real_cden(resolver)(o))
+
+
+def _resolver_value(a, name):
+    r = a.symbol_resolver
+    if r is None:
+        return None
+    if callable(r) and not hasattr(r, "val_fn"):
+        return r(name)
+    return SObj_call(r, name)
+
+
+def SObj_call(sfun, *args):
+    from pyvc.values import SObj
+    return SObj.CUR.call(sfun, list(args), {})
+
+
+def extract_spec(a, res):
+    """res == S3 constant value of a.expr, one unfolding of the recursive definition."""
+    e = a.expr
+    rs = a.symbol_resolver
+    if isa(e, "NumberLiteral"):
+        return ops.eq(res, e.value)
+    if isa(e, "IdentifierExpr"):
+        return _opt_eq(res, _resolver_value(a, e.name))
+    if isa(e, "SignalLiteral"):
+        return _opt_eq(res, cden(e.value, rs))
+    if isa(e, "UnaryOp"):
+        v = cden(e.expr, rs)
+        if v is None:
+            return res is None
+        return ops.And(
+            Implies(e.op == "+", ops.eq(res, v)),
+            Implies(e.op == "-", ops.eq(res, A.wrap32(-v))),
+            Implies(And(e.op != "+", e.op != "-"), res is None),
+        )
+    if isa(e, "BinaryOp"):
+        l, r = cden(e.left, rs), cden(e.right, rs)
+        if l is None or r is None:
+            return res is None
+        clauses = []
+        for t in ALL_TAGS:
+            clauses.append(Implies(e.op == t, fold_spec(t, l, r, res) if res is not None else False))
+        clauses.append(Implies(And(*[e.op != t for t in ALL_TAGS]), res is None))
+        return And(*clauses)
+    return res is None
+
+
+def _opt_eq(x, y):
+    if x is None or y is None:
+        return x is None and y is None
+    return ops.eq(x, y)
+
+
+def _i32_opt(v):
+    return True if v is None else A.i32(v)
+
+
+def _wf_expr(a):
+    """Type invariant of the input AST on the property's domain: literal values and resolved names are
+    int32, and so are the constant values of sub-expressions (induction hypothesis)."""
+    e = a.expr
+    cs = []
+    if isa(e, "NumberLiteral"):
+        cs.append(A.i32(e.value))
+    elif isa(e, "SignalLiteral"):
+        cs.append(_i32_opt(cden(e.value, a.symbol_resolver)))
+        if isa(e.value, "NumberLiteral"):
+            cs.append(_opt_eq(cden(e.value, a.symbol_resolver), e.value.value))
+    elif isa(e, "UnaryOp"):
+        cs.append(_i32_opt(cden(e.expr, a.symbol_resolver)))
+    elif isa(e, "BinaryOp"):
+        cs.append(_i32_opt(cden(e.left, a.symbol_resolver)))
+        cs.append(_i32_opt(cden(e.right, a.symbol_resolver)))
+    return And(*cs) if cs else True
+
+
+def _rec_effect(ex, a):
+    """Callee view of the recursive call: returns the ghost constant value of the sub-expression."""
+    return cden(a.expr, a.symbol_resolver)
+
+
+extract_rec = Contract(
+    qualname=EXTRACT,
+    params={"cls": ty.TOpaque("cls"), "expr": ty.TObj("Expr"), "diagnostics": ty.TOpaque("diag"),
+            "symbol_resolver": ty.TOpaque("resolver")},
+    defaults={"diagnostics": None, "symbol_resolver": None},
+    effect=_rec_effect,
+    verify=False,
+    note="recursive call used by contract (structural induction over the finite AST); the same contract is verified on the body",
+)
+
+_fold_callee = Contract(
+    qualname=FOLD,
+    params={"op": ty.Str, "left": ty.Int, "right": ty.Int, "node": ty.TOpaque("ast"), "diagnostics": ty.TOpaque("diag")},
+    defaults={"diagnostics": None},
+    requires=[("int32 operands", lambda a: And(A.i32(a.left), A.i32(a.right)))],
+    returns=ty.TOpt(ty.Int),
+    callee_ensures=[("fold", lambda a, res: And(*(
+        [Implies(a.op == t, fold_spec(t, a.left, a.right, res) if res is not None else False) for t in ALL_TAGS]
+        + [Implies(And(*[a.op != t for t in ALL_TAGS]), res is None)]
+        + [True if res is None else A.i32(res)])))],
+    verify=False,
+    note="proved above as fold_contract / fold_other_contract (same qualname)",
+)
+
+_RESOLVER_T = ty.TOpt(ty.TFun((ty.Str,), ty.TOpt(ty.Int), "resolver"))
+
+
+def _resolver_i32(a):
+    r = a.symbol_resolver
+    if r is None or not hasattr(r, "val_fn"):
+        return True
+    n = z3.String("any_name")
+    return z3.ForAll([n], A.i32(r.val_fn(n)))
+
+
+def _build_expr(model, o, build):
+    """Replay builder: a sub-expression known only through its ghost constant value becomes a real
+    AST node with exactly that S3 value."""
+    if "@cden" not in o._fields:
+        return None
+    from dsl_compiler.src.ast.expressions import UnaryOp
+    from dsl_compiler.src.ast.literals import NumberLiteral, StringLiteral
+    v = build(o._fields["@cden"])
+    if v is None:
+        return StringLiteral("not-a-constant")
+    if "NumberLiteral" in o._cls_set:
+        return NumberLiteral(v)
+    return UnaryOp("+", NumberLiteral(v))
+
+
+extract_contract = Contract(
+    qualname=EXTRACT,
+    params={"cls": ty.TConcrete(ClassRef("ConstantFolder")), "expr": ty.TObj("Expr"), "diagnostics": ty.TConcrete(None),
+            "symbol_resolver": _RESOLVER_T},
+    requires=[("well-formed int32 AST", _wf_expr), ("resolver yields int32", _resolver_i32)],
+    ensures=[("value is the S3 constant denotation", extract_spec),
+             ("result fits int32", lambda a, res: _i32_opt(res))],
+    build_args=_build_expr,
+    uses={"ConstantFolder.extract_constant_int": extract_rec, "ConstantFolder.fold_binary_operation": _fold_callee},
+    returns=ty.TOpt(ty.Int),
+    properties=("C11", "C09", "C16"),
+    min_obligations=10,
+)
+
+CONTRACTS += [extract_contract, extract_rec, _fold_callee]
